@@ -24,6 +24,7 @@ import (
 	"strconv"
 	"strings"
 	"unicode/utf8"
+	"unsafe"
 
 	"github.com/cockroachdb/redact"
 )
@@ -598,5 +599,133 @@ func execHelpers(e *env, op *Op, out *Outcome) {
 	_ = redact.StringWithoutMarkers(j)
 	if e.t != nil {
 		e.stats.Extra["c11_helper_groups_checked"]++
+	}
+}
+
+// ---- conservation for arbitrary byte strings ------------------------------------
+//
+// Escaping only ever replaces a marker by '?' or inserts a '?' next to a
+// dangling partial UTF-8 sequence. So for ANY payload bytes: remove every
+// '?' and every marker rune from both the concatenation of what was
+// written and the output - the results must be equal. (Weaker than the
+// exact conservation above, but it covers "every byte string".)
+
+func init() { opKinds["conserveany"] = execConserveAny }
+
+func looseNorm(s string) string {
+	s = strings.ReplaceAll(s, "?", "")
+	for {
+		t := strings.ReplaceAll(strings.ReplaceAll(s, mStart, ""), mEnd, "")
+		if t == s {
+			return s
+		}
+		s = t
+	}
+}
+
+func execConserveAny(e *env, op *Op, out *Outcome) {
+	var want strings.Builder
+	for i := range op.S {
+		if t, ok := pieceTextAny(&op.S[i]); ok {
+			want.WriteString(t)
+		}
+	}
+	var res Outcome
+	if op.N == 1 {
+		res = e.execOp(&Op{K: "sprintfn", S: op.S})
+	} else {
+		res = e.execOp(&Op{K: "builder", S: op.S})
+	}
+	out.Out, out.Panic = res.Out, res.Panic
+	if e.t != nil {
+		e.stats.Extra["c11_loose_conservation_checked"]++
+	}
+	if res.Panic != "" {
+		out.Checks = append(out.Checks, "C11/call-panicked#conserveany: "+res.Panic)
+		return
+	}
+	if got, w := looseNorm(redactableStrip(res.Out)), looseNorm(want.String()); got != w {
+		out.Checks = append(out.Checks, fmt.Sprintf("C11/written-output-lost#conserveany: apart from '?' and marker runes the writes add up to %q but the output holds %q (full output %q)", clip(w), clip(got), clip(res.Out)))
+	}
+}
+
+// pieceTextAny: like pieceText, but bytes are taken as they are.
+func pieceTextAny(st *Step) (string, bool) {
+	switch st.A {
+	case "sy":
+		return string([]byte{byte(st.I)}), true
+	case "uy", "wb":
+		// a single unsafe byte that cannot stand alone (>= 0x80) is
+		// rendered as the escape mark '?', by design
+		if byte(st.I) >= 0x80 {
+			return "", true
+		}
+		return string([]byte{byte(st.I)}), true
+	}
+	return pieceText(st)
+}
+
+// ---- exotic operands ---------------------------------------------------------------
+//
+// Pointers, channels, funcs, arrays, maps with non-string keys, nested
+// pointers, unsafe.Pointer: their renderings contain addresses, so they
+// are kept out of every comparing oracle - but "no value of any
+// parameter type makes a printing call panic" can still be observed.
+
+func init() { opKinds["exotic"] = execExotic }
+
+type exoticStruct struct {
+	P  *int
+	PP **int
+	C  chan int
+	F  func()
+	M  map[int]string
+	A  [3]int8
+	S  []*int
+	I  interface{}
+	U  uintptr
+	e  *exoticStruct
+}
+
+func execExotic(e *env, op *Op, out *Outcome) {
+	x := 42
+	px := &x
+	var nilp *int
+	var nilm map[int]string
+	var nilf func()
+	var nilc chan int
+	es := &exoticStruct{P: px, PP: &px, C: make(chan int), F: func() {}, M: map[int]string{3: "c", 1: "a"}, S: []*int{px, nil}, I: nilp, U: 7}
+	es.e = es
+	vals := []interface{}{px, &px, nilp, es, *es, es.C, es.F, es.M, es.A, es.S, nilm, nilf, nilc,
+		unsafe.Pointer(px), uintptr(9), [2][]int{{1}, nil}, map[interface{}]interface{}{1: "a", "b": 2.5},
+		struct{ X, y interface{} }{px, es}, &[]int{1, 2}, []interface{}{nil, px, es.C}, complex64(1 + 2i), [0]int{},
+		redact.Safe(px), redact.Unsafe(es), redact.Safe(es.M)}
+	verbs := []string{"%v", "%+v", "%#v", "%d", "%x", "%p", "%s", "%T", "%q", "%08.3v", "%-9d", "%U", "%c", "%t", "%e"}
+	k := op.N
+	if k < 0 {
+		k = -k
+	}
+	bad := 0
+	for i, v := range vals {
+		verb := verbs[(k+i)%len(verbs)]
+		func() {
+			defer func() {
+				if r := recover(); r != nil {
+					bad++
+					if len(out.Checks) < 3 {
+						out.Checks = append(out.Checks, fmt.Sprintf("C11/call-panicked#exotic: printing a %T with %s panicked: %v", v, verb, r))
+					}
+				}
+			}()
+			_ = redact.Sprintf("a "+verb+" b", v)
+			_ = redact.Sprint(v, v)
+			var sb redact.StringBuilder
+			sb.Printf(verb, v)
+			sb.Print(v)
+			_ = sb.RedactableString()
+		}()
+	}
+	if e.t != nil {
+		e.stats.Extra["c11_exotic_operands_printed"] += len(vals)
 	}
 }
